@@ -73,7 +73,7 @@ theorem prop_write_read (P : Platform) (f : Nat) (o v : Expr) (p : Name) (line e
       (∀ q, q ≠ p → (objOf σ3 r).lookup q = (objOf σ2 r).lookup q) ∧
       (∀ r', r' ≠ r → objOf σ3 r' = objOf σ2 r') ∧ σ3.arrs = σ2.arrs ∧ σ3.out = σ2.out := by
   refine ⟨{ σ2 with objs := σ2.objs.set r (upsert p x (objOf σ2 r)) }, ?_, ?_, ?_, ?_, rfl, rfl⟩
-  · rw [evalE]; simp only [h0, ho, hv]; simp [objOf]
+  · rw [evalE]; simp only [guardErr, ER.seq, Res.bind, h0, ho, hv]; simp [guardErr, ER.seq, Res.bind, objOf]
   · simp [objOf, List.getElem?_set, hr, upsert_lookup_self]
   · intro q hq; simp [objOf, List.getElem?_set, hr]; exact upsert_lookup_other p q x _ hq
   · intro r' hr'; simp [objOf, List.getElem?_set, Ne.symm hr']
@@ -89,14 +89,14 @@ theorem prop_read (P : Platform) (f : Nat) (o : Expr) (p : Name) (line env : Nat
       ∃ m, evalE P (f + 1) (.propAccess o p line) env repl σ = .ok (.nil, .none) (σ1.rte m line)) := by
   refine ⟨?_, ?_, ?_⟩
   · intro r v hov hl; subst hov
-    rw [evalE]; simp only [h0, ho]; unfold objOf at hl
+    rw [evalE]; simp only [guardErr, ER.seq, Res.bind, h0, ho]; unfold objOf at hl
     simp only [Bool.false_eq_true, if_false, ne_eq, not_true_eq_false, hl]
   · intro r hov hl; subst hov
-    rw [evalE]; simp only [h0, ho]; unfold objOf at hl
+    rw [evalE]; simp only [guardErr, ER.seq, Res.bind, h0, ho]; unfold objOf at hl
     simp only [Bool.false_eq_true, if_false, ne_eq, not_true_eq_false, hl, nilOk]
     exact ⟨_, rfl⟩
   · intro hne
-    rw [evalE]; simp only [h0, ho]
+    rw [evalE]; simp only [guardErr, ER.seq, Res.bind, h0, ho]
     cases ov <;> simp only [Bool.false_eq_true, if_false, ne_eq, not_true_eq_false, nilOk] <;>
       first
         | exact ⟨_, rfl⟩
